@@ -5,6 +5,7 @@ import (
 	"time"
 
 	tchannel "github.com/uber/tchannel-go"
+	"github.com/uber/tchannel-go/simrt"
 	"vsim/wire"
 )
 
@@ -94,6 +95,17 @@ func famCancel(w *World) {
 			s.Rs2, s.Rs3 = scn(3000), drawSize(150000)
 			s.Mode = "chunky"
 		}
+		// a caller that is busy (not parked inside the library) when its context is cancelled:
+		// between writing the request and reading the response, or between two pieces of the response
+		switch scn(5) {
+		case 0:
+			s.ReadPause = time.Duration(1+scn(60)) * w.Grid
+		case 1:
+			s.ChunkPause = time.Duration(1+scn(10)) * w.Grid
+			if s.Rs3 < 0 {
+				s.Rs2, s.Rs3 = scn(3000), 20000+scn(200000)
+			}
+		}
 		if s.Timeout > maxTimeout && s.Timeout < time.Minute {
 			maxTimeout = s.Timeout
 		}
@@ -179,6 +191,49 @@ func famCancel(w *World) {
 				if tf.Err == nil && tf.F.Type == wire.TCancel && len(msgs) > 0 && tf.F.ID == msgs[0].first.F.ID {
 					cancelFrames++
 				}
+			}
+		}
+		// the caller's wait ended BECAUSE of the cancellation, after the request had been written
+		// completely (so the library was, or next came to be, waiting for response frames), on a
+		// healthy connection: with the option on, the peer must be told
+		w.eval("C14.cancel-frame")
+		if sendCancel && r.Cancelled && code == tchannel.ErrCodeCancelled && r.WroteEv != 0 && r.CancelEv > r.WroteEv && len(msgs) > 0 && cutEv == 0 &&
+			simrt.Cur().StallTime == r.Stall0 { // (no goroutine was held back since: the writer had its chance)
+			healthy := true
+			for _, l := range w.Net.Links {
+				if l.A.Owner == cli.Name && (l.CutEv != 0 || l.CloseEv[0] != 0 || l.CloseEv[1] != 0) {
+					healthy = false
+				}
+			}
+			// the id this call has on the caller's own connection
+			var myID uint32
+			mine := false
+			for _, m := range msgs {
+				if m.emitter == cli.Name {
+					myID, mine = m.first.F.ID, true
+				}
+			}
+			myCancels := 0
+			for _, l := range w.Net.Links {
+				if l.A.Owner != cli.Name {
+					continue
+				}
+				for _, tf := range l.Frames[0] {
+					if tf.Err == nil && tf.F.Type == wire.TCancel && mine && tf.F.ID == myID {
+						myCancels++
+					}
+				}
+			}
+			if !mine {
+				healthy = false
+			}
+			cancelFrames := myCancels
+			if healthy && cancelFrames == 0 {
+				w.violate("C14", "cancel-frame-not-sent", "call %s: SendCancelOnContextCanceled is on, the request was written completely at %v, the caller cancelled at %v and its wait ended with %s at %v, but no cancel frame for id %d was ever written: the handler keeps running until its ttl",
+					s.Tag, r.WroteAt, r.CancelAt, errStr(r.Err), r.EndAt, myID)
+			}
+			if healthy && cancelFrames > 0 {
+				w.probe("C14.cancel-frame-sent")
 			}
 		}
 		if !sendCancel && cancelFrames > 0 {
